@@ -6,9 +6,9 @@ import json, os, sys
 sys.path.insert(0, os.path.dirname(os.path.dirname(os.path.abspath(__file__))))
 import vlib
 
-lockp = vlib.VERIF / "statements.lock"
-lock = json.loads(lockp.read_text()) if lockp.exists() else {}
 for prop in sys.argv[1:]:
+    lockp = vlib.VERIF / "locks" / (prop + ".json")
+    lock = {}
     a = vlib.audit(prop)
     if not a.get("build_ok"):
         print(a["log"]); sys.exit(1)
@@ -18,4 +18,4 @@ for prop in sys.argv[1:]:
             print("locked", o["name"], o["axioms"])
         else:
             print("NOT locked", o["name"], o["why"]); print(a.get("audit_log", ""))
-lockp.write_text(json.dumps(lock, indent=1, sort_keys=True) + "\n")
+    lockp.write_text(json.dumps(lock, indent=1, sort_keys=True) + "\n")
